@@ -20,7 +20,12 @@ fn self_peer(sim: &Sim<Packet>) -> bool {
 
 fn mesh_case(n: usize, nat: &[u64], dial: &[(u64, u64)], stream: u64, horizon: i64) -> Value {
     let mut sim: Sim<Packet> = Sim::new(stream);
-    let cfg = base_config(Mode::Router);
+    let mut cfg = base_config(Mode::Router);
+    let plain = stream % 5 == 4;
+    if plain {
+        // every fifth configuration runs with unencrypted sessions ("plain" enabled on every node)
+        cfg.crypto.algorithms = vec!["plain".into()];
+    }
     for i in 1..=n {
         sim.add_node(nat.contains(&(i as u64)), &cfg);
     }
@@ -54,7 +59,7 @@ fn mesh_case(n: usize, nat: &[u64], dial: &[(u64, u64)], stream: u64, horizon: i
             }
         }
     }
-    json!({"op":"meshrun","n":n,"nat":nat,"dial":dial.iter().map(|(a, b)| json!([a, b])).collect::<Vec<_>>(),"interval":INTERVAL,
+    json!({"op":"meshrun","plain":plain,"n":n,"nat":nat,"dial":dial.iter().map(|(a, b)| json!([a, b])).collect::<Vec<_>>(),"interval":INTERVAL,
            "t_full":t_full,"stable":stable,"self_peer":selfp,"panics":sim.total_panics(),"storm_ticks":sim.storm_ticks})
 }
 
